@@ -169,6 +169,11 @@ m('xz-writer-delta-range-dropped', 'C19', 'VALIDATE-PARITY', 'src/xz/writer.rs',
 m('bcj-checked-position-add', 'C06', 'POS-WRAP', 'src/filter/bcj/x86.rs', 'dest = src.wrapping_add((self.pos + i) as i32);', 'dest = src + (self.pos + i) as i32;', 'BCJFilter::x86_code:position-arithmetic-wraps')
 m('lzma2-props-unchecked', 'C06', 'BOUNDS', 'src/lzma2_reader.rs', None, None, 'index<16')
 
+m('x86-decoder-adds', 'C11', 'FILTER-INVERSE', 'src/filter/bcj/x86.rs', 'dest = src.wrapping_sub((self.pos + i) as i32);', 'dest = src.wrapping_add(((self.pos + i) as i32).wrapping_neg());', 'BCJFilter::x86_code:dest')
+m('ppc-encoder-other-operand', 'C11', 'FILTER-INVERSE', 'src/filter/bcj/ppc.rs', '                    src.wrapping_add(p)\n', '                    src.wrapping_add(p & !3)\n', 'BCJFilter::ppc_code:dest')
+m('delta-encode-stores-filtered', 'C11', 'FILTER-INVERSE', 'src/filter/delta.rs', '            self.history[pos & DIS_MASK] = original;', '            self.history[pos & DIS_MASK] = *item;', 'Delta:encode~decode')
+m('bcj-reader-encodes', 'C11', 'FILTER-INVERSE', 'src/filter/bcj.rs', 'Self::new(inner, BCJFilter::new_sparc(start_pos, false))', 'Self::new(inner, BCJFilter::new_sparc(start_pos, true))', 'BCJ:new_sparc')
+
 M = [x for x in M if x['old'] is not None]
 
 
